@@ -263,3 +263,46 @@ func Verify(h Hash, height int, root, pubSeed, msg, sig []byte) bool {
 func NodeHash(h Hash, left, right, pubSeed []byte, level, idx uint32) []byte {
 	return h.h2(left, right, pubSeed, addr{0, 0, 0, 2, 0, level, idx, 0})
 }
+
+// Fabricate builds a (signature, root, pubSeed) that satisfies the verification
+// equation for msg at leaf index idx of a height-h tree WITHOUT building the tree: the
+// WOTS key pair at idx is derived from skSeed, the authentication-path siblings are the
+// caller's arbitrary 32-byte values, and the root is whatever the path hashes to. Used to
+// present spec-valid triples for heights and indices no real key can afford (h up to 30).
+func Fabricate(h Hash, height int, idx uint32, msg, skSeed, pubSeed, r []byte, siblings [][]byte, tamperBit int) (sig, root []byte) {
+	k := &Key{Hash: h, Height: height, SKSeed: skSeed, PubSeed: pubSeed}
+	node := k.leaf(idx)
+	i := idx
+	for l := 0; l < height; l++ {
+		a := addr{0, 0, 0, 2, 0, uint32(l), i >> 1, 0}
+		if i&1 == 0 {
+			node = h.h2(node, siblings[l], pubSeed, a)
+		} else {
+			node = h.h2(siblings[l], node, pubSeed, a)
+		}
+		i >>= 1
+	}
+	root = append([]byte{}, node...)
+	if tamperBit >= 0 {
+		// the CLAIMED root (goes into the public key and keys the message hash) differs from the
+		// root the path really hashes to in exactly one bit: every step of verification succeeds
+		// except the final comparison
+		root[tamperBit/8] ^= 1 << uint(tamperBit%8)
+	}
+	sig = make([]byte, 4)
+	binary.BigEndian.PutUint32(sig, idx)
+	sig = append(sig, r...)
+	key := append(append(append([]byte{}, r...), root...), toByte32(idx)...)
+	d := digits(h.core(2, key, msg))
+	sk := k.wotsSK(idx)
+	for j := 0; j < Len; j++ {
+		sig = append(sig, k.chain(sk[j], 0, d[j], addr{0, 0, 0, 0, idx, uint32(j), 0, 0})...)
+	}
+	for l := 0; l < height; l++ {
+		sig = append(sig, siblings[l]...)
+	}
+	return sig, root
+}
+
+// SigLen is the signature length for a tree of the given height.
+func SigLen(height int) int { return 4 + N + Len*N + height*N }
